@@ -231,6 +231,10 @@ func (b *bigmachineExecutor) addInvocation(inv execInvocation) (bool, error) {
 		}
 		b.invocationDeps[inv.Index][result.invIndex] = true
 	}
+	// Workers must compile with the driver's view of what is cached, not
+	// their own: the task's copy of the invocation was taken before the
+	// session froze its environment.
+	inv.Env.Freeze()
 	b.invocations[inv.Index] = inv
 	return true, nil
 }
